@@ -6,7 +6,39 @@ BG = ('hybrid 2-d operand (buffer capacity 16) with extents 1..MAXE, all element
 def _h(name, unwind=8, quick=None, thorough=None, **kw):
     return dict(name=name, src='harnesses/C13.c', func='h_' + name, kernels=['C13_thread'], unwind=unwind,
                 quick=quick or [_c(3)], thorough=thorough or [_c(4)], bounds=BG, **kw)
-HARNESSES = [_h(n) for n in ('th_write_side', 'th_transpose', 'th_reshape', 'th_flatten', 'th_flip', 'th_invert', 'th_add')]
-OUTSIDE = []
-ASSUMPTIONS = []
-CLAIM = dict(text='', note='')
+HARNESSES = [_h(n) for n in ('th_write_side', 'th_transpose', 'th_reshape', 'th_flatten', 'th_flip', 'th_invert', 'th_add', 'th_flip_transpose', 'th_invert_flip', 'th_invert_flip_transpose', 'th_sum', 'thd_transpose')]
+HARNESSES.append(_h('thd_add', quick=[_c(2)], thorough=[_c(3), _c(4)]))   # 185 s / 4.1 GB at MAXE=3
+HARNESSES.append(dict(name='launch_size', src='harnesses/C13.c', func='h_launch_size', kernels=['C13_thread'], unwind=4,
+    bounds='TRANSCRIBED launch-size expression; output size 1..2^31-1 symbolic (pending finding: sizes > 2^24 excluded); work-group size LOCAL a per-query constant (32 = CUDA/HIP/SYCL warp size; OpenCL device values enumerated; symbolic 1..1024: no verdict in 300 s)',
+    # KF_C13_LAUNCH_SIZE_FLOAT: TEMPORARY exclusion of the pending finding below (see PENDING_FINDINGS)
+    quick=[{'LOCAL': l, 'KF_C13_LAUNCH_SIZE_FLOAT': 1} for l in (32, 256)], thorough=[{'LOCAL': l, 'KF_C13_LAUNCH_SIZE_FLOAT': 1} for l in (1, 32, 64, 128, 256, 512, 1024)]))
+PENDING_FINDINGS = [dict(id='C13-launch-size-float32', harness='launch_size', exclude_define='KF_C13_LAUNCH_SIZE_FLOAT', witness_inputs=['0x8f01601', '0x20'], witness_config={'LOCAL': 32},
+    what='launch-size arithmetic size_t(std::ceil(float(n)/32))*32 (sycl/context.hpp:466-467, opencl/context.hpp:478; same expression in cuda/hip where it counts BLOCKS and is harmless) '
+         'rounds n through float: for n = 149952001 (any n > 2^24 that float rounds down) it yields 149952000 < n work items, so the SYCL nd_range / OpenCL global size does not cover the last '
+         'output elements and they are never written. Decided on a TRANSCRIPTION of the expression (the headers need the device runtimes); replays natively.')]
+OUTSIDE = [
+ 'real devices and the CUDA/HIP/SYCL/OpenCL runtimes: the host-side contexts (buffer allocation, copies, kernel launch) cannot be compiled here',
+ 'the launch-size computation inside cuda/hip/sycl/opencl context_t::run_ is not compiled (needs the device runtime); harness launch_size decides a TRANSCRIPTION of the one-line expression only',
+ 'OpenCL C kernel-helper variant (eval/opencl/kernel_helper.hpp, needs the OpenCL C++ dialect)',
+ 'multi-operand broadcast compositions, e.g. (a+b)*a: no verdict in the feasibility study (900 s, DESIGN.md section 6 C13); binary ufunc of two same-shape leaves IS covered (th_add, thd_add)',
+ 'operand dims other than 2 (output dims 1 and 2 are covered), extents > 4, element types other than unsigned 32-bit',
+ 'views with multiplication (square, multiply): equality of two multiplier circuits does not return in 300 s; invert/add/sum are used instead',
+ 'schedules are covered by the one-step induction argument stated in the claim, not by enumerating interleavings',
+]
+ASSUMPTIONS = [
+ 'run_body in kernels/C13_thread.cpp is a line-by-line transcription of the body of nm_cuda_run_function (include/nmtools/array/eval/cuda/context.hpp:10-31; nm_hip_run_function is the same text) with threadIdx.x / blockIdx.x / blockDim.x replaced by parameters, because the header needs the CUDA runtime; everything it calls is the unmodified nmtools code',
+ 'cuda_create_array (thd_* harnesses) transcribes the shape-copy part of cuda::context_t::create_array (cuda/context.hpp:161-200); the device buffer is the host buffer (cudaMalloc/cudaMemcpy are taken to copy faithfully)',
+ 'th_* harnesses rebuild operands with create_array<2>(pointer, shape, dim) as the SYCL path does (sycl/context.hpp:100-103)',
+ 'host value = NumPy element of the view at flat position g (reference model in harnesses/C13.c); that host evaluation returns exactly this is the subject of C03/C06/C08/C10',
+ 'threads do not race on a cell: distinct global ids write distinct cells (shown: thread g writes only cell g), so any interleaving of whole-thread steps gives the same final state',
+]
+CLAIM = dict(
+ text='For every listed view (transpose, reshape, flatten, flip, unary ufunc, binary ufunc of two same-shape leaves, sum over an axis, and the depth-2/3 chains '
+      'flip(transpose), invert(flip), invert(flip(transpose))) the solver shows for the complete per-thread step - host-side get_function_composition + get_function_operands, '
+      'device-side operand reconstruction from raw (pointer, shape, dim), fn::apply, create_mutable_array and assign_result - with operand shape, data, view arguments, '
+      'the prior content of the whole output buffer, thread id, block id (0..32) and block size (1..33) ALL symbolic: the thread with global id g = block*block_size+thread '
+      'writes the host value into out[g] iff g < size(out) and changes no other cell. Since the written value depends neither on the output buffer nor on other threads, '
+      'induction over the sequence of thread executions gives: any order, any interleaving, duplicated execution and any over-provisioned 1-d launch whose thread count is at least '
+      'the output size leave the output equal to host evaluation. Also shown for the write side alone and for the CUDA operand kind (device_array with bounded shape).',
+ note='Bounded: 2-d operands, extents 1..3 (quick) / 1..4 (thorough), output buffer of 16 cells, block id <= 32, block size 1..33 (covers the actual CUDA/HIP grid of ceil(size/32)*32 blocks for size <= 16). '
+      'The kernel entry body is transcribed (see assumptions). Trusted: clang-14 -O1 lowering, engine/ll2c.py, CBMC; validated per run by gate and witness assertions.')
